@@ -1343,7 +1343,12 @@ static void cmd_new(char **tok, int ntok)
         int n, k;
         snprintf(tmp, sizeof(tmp), "%s", v);
         n = split_csv(tmp, parts, 32);
-        for (k = 0; k < n; k++) matrixSslSetCipherSuiteEnabledStatus(e->ssl, (psCipher16_t) strtol(parts[k], NULL, 0), PS_FALSE);
+        /* in order; "+id" enables a suite again */
+        for (k = 0; k < n; k++)
+        {
+            if (parts[k][0] == '+') matrixSslSetCipherSuiteEnabledStatus(e->ssl, (psCipher16_t) strtol(parts[k] + 1, NULL, 0), PS_TRUE);
+            else matrixSslSetCipherSuiteEnabledStatus(e->ssl, (psCipher16_t) strtol(parts[k], NULL, 0), PS_FALSE);
+        }
     }
     e->lastrc = rc;
     if (rc < 0) { e->ssl = NULL; }
